@@ -78,10 +78,16 @@ class DecoratedFunction:
         return self._func.__qualname__
 
     @property
+    def _decorator_lines(self) -> str:
+        """ The source text in front of the function definition: decorators are looked for there, not in the body. """
+
+        return self.source.split('def')[0]
+
+    @property
     def is_static_method(self) -> bool:
         """ I honestly have no idea how to do this better :( """
 
-        return '@staticmethod' in self.source
+        return '@staticmethod' in self._decorator_lines
 
     @property
     def wants_args(self) -> bool:
@@ -89,7 +95,7 @@ class DecoratedFunction:
 
     @property
     def is_property_setter(self) -> bool:
-        return f'@{self.name}.setter' in self.source
+        return f'@{self.name}.setter' in self._decorator_lines
 
     @property
     def should_have_kwargs(self) -> bool:
@@ -118,7 +124,7 @@ class DecoratedFunction:
 
     @property
     def is_pedantic(self) -> bool:
-        return '@pedantic' in self.source or '@require_kwargs' in self.source
+        return '@pedantic' in self._decorator_lines or '@require_kwargs' in self._decorator_lines
 
     @property
     def is_coroutine(self) -> bool:
